@@ -439,4 +439,41 @@ example :
     e.resources = ["a.yaml", "../base"] ∧ e.nspace = "prod" ∧ e.commonLabels = [("app", "x")] ∧ e.bases = [] := by
   decide
 
+theorem mapHas_mapSet (k v : String) (m : SMap) : mapHas k (mapSet k v m) = true := by
+  induction m with
+  | nil => simp [mapSet, mapHas]
+  | cons ab r ih =>
+    obtain ⟨a, b⟩ := ab
+    by_cases h1 : a = k
+    · simp [mapSet, h1, mapHas]
+    · by_cases h2 : k < a
+      · simp [mapSet, h1, h2, mapHas]
+      · simp only [mapSet, h1, if_false, h2]
+        simp only [mapHas, List.any_cons] at ih ⊢
+        simp [ih]
+
+theorem mapSet_ne_nil (k v : String) (m : SMap) : (mapSet k v m).isEmpty = false := by
+  cases m with
+  | nil => simp [mapSet]
+  | cons ab r =>
+    obtain ⟨a, b⟩ := ab
+    simp only [mapSet]
+    split
+    · rfl
+    · split <;> rfl
+
+/-- **add_remove_map**: adding a key that is not there (`add label k:v`, `add annotation k:v`) and removing it
+    again (`remove label k`) restores the map — whatever the map and the `ignore` flag -/
+theorem add_remove_map (k v : String) (m m' : SMap) (ignore : Bool)
+    (h : addToMap false [(k, v)] m = some m') : removeKeys ignore [k] m' = some m := by
+  unfold addToMap at h
+  simp only [Bool.not_false, Bool.true_and, List.any_cons, List.any_nil, Bool.or_false] at h
+  split at h
+  · simp at h
+  · rename_i hn
+    simp only [mapSetAll, List.foldl_cons, List.foldl_nil, Option.some.injEq] at h
+    subst h
+    have hk : mapHas k m = false := by simpa using hn
+    simp [removeKeys, mapSet_ne_nil, mapHas_mapSet, mapDel_mapSet k v m hk]
+
 end Kust.C17
